@@ -153,6 +153,11 @@ def judge(case, loc, dk):
             out.append(("C20/values/" + "+".join(sorted(kinds_of(case))),
                         "sink sequences differ: local %s dask %s" % (ls, ds)))
         return out
+    if dk.get("overtaken") and last_segment_has_union(case):
+        # equal values hide it from the sequence comparison, but a later arrival was emitted before an earlier one
+        out.append(("C20/order/bare-gather/fan-in-of-one-input",
+                    "gather emitted a later arrival before an earlier one (the two values are equal): %s" % (ds,)))
+        return out
     if loc["counts"] != dk["counts"]:
         out.append(("C20/refs/final-count/" + "+".join(sorted(kinds_of(case))),
                     "final reference counts differ: local %s dask %s" % (loc["counts"], dk["counts"])))
@@ -161,30 +166,34 @@ def judge(case, loc, dk):
     if lf != df:
         out.append(("C20/refs/callbacks/" + "+".join(sorted(kinds_of(case))),
                     "callbacks fired differ: local %s dask %s" % (loc["fired"], dk["fired"])))
-    else:
-        seen_l, seen_d = {}, {}
-        for i, n in loc["fired"]:
-            seen_l.setdefault(i, []).append(n)
-        for i, n in dk["fired"]:
-            seen_d.setdefault(i, []).append(n)
-        for i in seen_l:
-            for a, b in zip(seen_l[i], seen_d[i]):
-                if b < a:
-                    out.append(("C20/refs/early-callback/" + "+".join(sorted(kinds_of(case))),
-                                "callback of input %d fired after %d deliveries on dask, %d locally" % (i, b, a)))
-                    break
+    # never early: a callback must not fire before the last result carrying that input's metadata reached the sink
+    # (metadata travels with the data, C10, so the sink sees which inputs a delivery derives from)
+    for i, n in dk["fired"]:
+        last = dk.get("last_md", {}).get(str(i), 0)
+        if n < last:
+            out.append(("C20/refs/early-callback/" + "+".join(sorted(kinds_of(case))),
+                        "callback of input %d fired after %d deliveries, but delivery %d still derives from it" % (i, n, last)))
+            break
     return out
 
 
-def shrink(case, sig, runner, budget=150):
-    """greedy: drop stages / branch leaves / inputs, simplify the schedule, while the same signature is reported"""
+def cls_of(sig):
+    """failure class of a signature: the part that does not depend on which other node kinds are in the pipeline"""
+    parts = sig.split("/")
+    if parts[1] == "order" and "bare-gather" in sig:
+        return sig
+    return "/".join(parts[:3] if parts[1] == "refs" else parts[:2])
+
+
+def shrink(case, cls, runner, budget=150):
+    """greedy: drop stages / branch leaves / inputs, simplify the schedule, while the same failure class is reported"""
     cur = json.loads(json.dumps(case))
     used = [0]
 
     def fails(c):
         used[0] += 1
         try:
-            return any(s == sig for s, _ in runner(c))
+            return any(cls_of(s) == cls for s, _ in runner(c))
         except Exception:
             return False
 
@@ -309,6 +318,6 @@ def write_files(d, encoded, per=150, tag="cases"):
             f.write(HEADER)
             f.write("Definition cases : list dcase := [\n")
             f.write(";\n".join(encoded[k:k + per]))
-            f.write("].\nEval vm_compute in (mismatches cases).\n")
+            f.write("].\nEval vm_compute in (mismatches false cases).\nEval vm_compute in (mismatches true cases).\n")
         paths.append(p)
     return paths
